@@ -87,7 +87,8 @@ pub fn known_trigger(w: &World, rec: &StepRecord) -> Option<String> {
             let node = rec.step.node;
             let had_pending = w.prev_view.groups.get(&w.gid_hex(pe.g)).and_then(|g| g.mls.as_ref()).map(|m| m.pending_commit).unwrap_or(false);
             let is_proposal = pe.kind == EvKind::Proposal || pe.desc.starts_with("crafted proposal");
-            if is_proposal && had_pending && w.is_admin(node, pe.g) {
+            let _ = had_pending;
+            if is_proposal && w.is_admin(node, pe.g) {
                 let before = w.prev_view.groups.get(&w.gid_hex(pe.g)).map(crate::checks::c07::restricted_group);
                 let after = w.views[node].groups.get(&w.gid_hex(pe.g)).map(crate::checks::c07::restricted_group);
                 if let (Some(mut b), Some(mut a)) = (before, after) {
